@@ -259,3 +259,15 @@ mod tests {
         );
     }
 }
+
+/// Verification hooks (add-only, compiled only with `--cfg fontc_verif`): a thin wrapper that
+/// exposes the private `to_segment_map` to the correspondence harness.
+#[cfg(fontc_verif)]
+pub mod verif_hooks {
+    use fontdrasil::types::Axis;
+    use write_fonts::tables::avar::SegmentMaps;
+
+    pub fn to_segment_map(axis: &Axis) -> SegmentMaps {
+        super::to_segment_map(axis)
+    }
+}
